@@ -221,13 +221,14 @@ def run_case(case):
                 # overlapping slices (an x-range plane, then a single-x face) to the same component of the x-sharded
                 # field inside one jitted step; the SPMD-partitioned program then differs from the single-device one.
                 # Everything downstream of the fields in such a run carries the same key.
-                has_tfsf = any(sv["kind"] == "tfsf" for sv in scene["sources"])
+                # (all TFSF-type sources share that injection code: the box region, uniform and Gaussian plane sources)
+                has_tfsf = any(sv["kind"] in ("tfsf", "uniform", "gaussian") for sv in scene["sources"])
                 fields_differ = any(
                     got.get(k) is not None and got[k].shape == ref[k].shape
                     and float(np.abs(got[k] - ref[k]).max()) > 1e-12 * max(fmax, 1e-300)
                     for k in ("E", "H")
                 )
-                override = "tfsf-box-source-multi-device" if (has_tfsf and fields_differ and metas[n].get("xla_probe")) else None
+                override = "tfsf-source-multi-device" if (has_tfsf and fields_differ and metas[n].get("xla_probe")) else None
                 if metas[n].get("xla_probe") is not None:
                     r.branch(f"xla-overlapping-slice-add-probe:n={n}:" + ("miscompiles" if metas[n]["xla_probe"] else "ok"))
                 for name, want in ref.items():
@@ -253,7 +254,9 @@ def run_case(case):
                         label = name.split("/")[0]
                         mech = "device-count-field:" + label
                         atol = 1e-12 * fmax if name.startswith("psi") else 0.0
-                    ok = r.check_close(label, g, want, tol, witness=ww, sig=sig, mechanism=override or mech, atol=atol)
+                    # material arrays are written before any source acts: they never carry the key
+                    is_material = not name.startswith(("det/", "flux/", "netflux/", "E", "H", "psi", "dispersive_P"))
+                    ok = r.check_close(label, g, want, tol, witness=ww, sig=sig, mechanism=(mech if is_material else (override or mech)), atol=atol)
                     if ok and not reduced and g.shape == want.shape and not np.array_equal(g, want):
                         identical = False
                 for name in got:
